@@ -6,6 +6,7 @@ from gen import classes
 class C04(common.SpecCheck):
     pid = "C04"
     title = "Affine index expressions are evaluated exactly, with or without partitioning"
+    QUICK = {"nseeds": 8, "specs": 300, "round": 300, "budget": 0}
     rule = ("class-A specs (1-D/2-D convolution with stride and dilation coefficients 1-3, subsampling, optional "
             "channel ranks, consistent extents; loop orders over the output rank and the filter rank or the accessed "
             "tensor's own rank; 0-1 shape-partition levels (2 when the halo is zero) on the output rank with the "
